@@ -1260,6 +1260,41 @@ def is_bool_table(ty):
     return 'Vec<bool>' in ty or '[bool]' in ty
 
 
+def status_table_enum(facts, ty):
+    """the element enum of a per-node *status* table (`Vec<NodeStatus>`, `&mut [NodeStatus]`): a field-less crate enum with
+    three variants (new / on the stack / done) - the two boolean tables of a depth-first search merged into one"""
+    import re as _re
+    m = _re.search(r'(?:Vec<|\[)([A-Za-z_][\w:<>\' ]*?)(?:>|\])', ty or '')
+    if not m:
+        return None
+    a = facts.adts.get(m.group(1).strip())
+    if a and a.get('kind') == 'enum' and len(a.get('variants', [])) == 3 and all(not v.get('fields') for v in a['variants']):
+        return a
+    return None
+
+
+VISITED_FIELDS = ('named_type_written', 'unnamed_in_progress', 'node_traversal_state', 'visited_nodes', 'in_progress', 'visited')
+
+
+def visited_field_names(facts):
+    """field names under which per-node traversal state is kept: the reviewed ones, plus any `Vec<S>` field whose
+    element S is a private struct holding one of them (two parallel per-node tables merged into one table of structs)"""
+    cached = getattr(facts, '_visited_fields', None)
+    if cached is not None:
+        return cached
+    out = set(VISITED_FIELDS)
+    elems = [a['path'] for a in facts.adts.values() if a.get('kind') == 'struct' and a.get('variants') and
+             any(fd.get('name') in VISITED_FIELDS for fd in a['variants'][0].get('fields', []))]
+    for a in facts.adts.values():
+        for v in a.get('variants', []):
+            for fd in v.get('fields', []):
+                ty = fd.get('ty') or ''
+                if any(('Vec<%s>' % e) in ty or ('[%s]' % e) in ty for e in elems):
+                    out.add(fd.get('name'))
+    facts._visited_fields = out
+    return out
+
+
 def slice_advance_shape(b):
     """How a function advances a slice by a caller-given n with a bounds check: 'get' (`.get(n..)`, None => Err),
     'cmp' (`n > len => Err`, then `&slice[n..]`), or None.  n is the function's second parameter after a checked
@@ -1351,3 +1386,37 @@ def index_path_from_call(body, op, t, depth=8):
         else:
             return None
     return None
+
+
+def fields_read_from_call(body, t):
+    """names of the fields projected out of the value a call returns (`state.table[i].written`: the Index call's result,
+    then `.written`)"""
+    dl = (t.get('dest') or {}).get('l')
+    out = set()
+    todo, seen = [dl], set()
+    while todo:
+        l = todo.pop()
+        if l in seen or l is None:
+            continue
+        seen.add(l)
+        for bb in body.live_blocks():
+            for s_ in body.stmts(bb):
+                if 'assign' not in s_:
+                    continue
+                rv = s_['rv']
+                for pl in ([rv.get('place')] if rv.get('k') in ('ref', 'rawptr', 'discr') else []) + ([op_place(rv['op'])] if rv.get('k') == 'use' else []):
+                    if pl and pl.get('l') == l:
+                        for e in pl.get('p', []):
+                            if isinstance(e, dict) and 'f' in e:
+                                out.add(e['f'])
+                        if not s_['assign'].get('p'):
+                            todo.append(s_['assign']['l'])
+                ap = s_['assign']
+                if ap.get('l') == l:
+                    for e in ap.get('p', []):
+                        if isinstance(e, dict) and 'f' in e:
+                            out.add(e['f'])
+            tm = body.term(bb)
+            if tm.get('k') == 'switch':
+                pl = op_place(tm.get('op'))
+    return out
